@@ -53,6 +53,8 @@ def handleDcepSt (s : St) (sid : Nat) : Cur St := do
     if ¬ r.1 then pure s else                               -- `DataChannelOpen::unmarshal(&data)?` — the caller drops the error
     match r.2.1 with
     | [ct, _prio, rel, labelLen, protoLen] =>
+      -- an OPEN on an unused stream id is refused once `MAX_DATA_CHANNELS` channels are live (the error is dropped by the caller)
+      if ¬ s.chans.contains sid ∧ s.chans.length ≥ c07MaxDataChannels then pure s else
       let s : St := if s.chans.contains sid then s else
         { s with chans := sid :: s.chans }.emit
           [1000, sid, labelLen, protoLen, if ct / 128 % 2 = 0 then 1 else 0,
